@@ -823,6 +823,15 @@ func (config *Config) resolve() (changedFields set.Set[string], err error) {
 				continue valueLoop
 			}
 
+			if source < currentSource {
+				// Shadowed by a higher-priority source: the value cannot take effect, so
+				// it must not be able to fail the update either.
+				log.Infof("Skipping config value for %v from %v; "+
+					"already have a value from %v", name,
+					source, currentSource)
+				continue valueLoop
+			}
+
 			log.Infof("Parsing value for %v: %v (from %v)",
 				name, rawValue, source)
 			var value any
